@@ -1,6 +1,7 @@
 import OZ.Model.Vault
 import OZ.Props.C01
 import OZ.Props.C12
+import OZ.Lemmas.FungibleAuth
 import Mathlib.Tactic.Ring
 import Mathlib.Tactic.Linarith
 /-
@@ -900,6 +901,511 @@ theorem sum_floor_le (L : List Nat) (b : Nat → Int) (y d : Int) (hd : 0 < d) :
 theorem replay_append (evs : List Event) (ev : Event) :
     replay (evs ++ [ev]) = replayEvent (replay evs) ev := by
   simp [replay, List.foldl_append]
+
+
+
+/-! ### exact allowance bookkeeping (reusing the C02 lemmas) -/
+
+/-- the getter after a successful `spend_allowance` reads exactly `amt` less -/
+theorem spendAllowance_exact {c : Cfg} {s s' : Tok} {o sp : Nat} {amt : Int}
+    (h : OZ.Fungible.spendAllowance c s o sp amt = .ok s') :
+    OZ.Fungible.allowance s' o sp = OZ.Fungible.allowance s o sp - amt := by
+  obtain ⟨h0, -, hc⟩ := OZ.Fungible.spendAllowance_cases h
+  rcases hc with ⟨hp, -⟩ | ⟨hz, rfl⟩
+  · exact (OZ.Fungible.spendAllowance_pos h hp).2.2.1
+  · omega
+
+/-- ... and every other pair reads what it read before -/
+theorem spendAllowance_others {c : Cfg} {s s' : Tok} {o sp : Nat} {amt : Int}
+    (h : OZ.Fungible.spendAllowance c s o sp amt = .ok s') (x y : Nat) (hxy : ¬ (x = o ∧ y = sp)) :
+    OZ.Fungible.allowance s' x y = OZ.Fungible.allowance s x y := by
+  obtain ⟨-, -, e3, -, e5⟩ := OZ.Fungible.spendAllowance_ok h
+  exact OZ.Fungible.allowance_congr_entry (e5 x y hxy) e3
+
+/-- `spend_allowance(owner, spender, amt)` gets through exactly when: the amount is not
+negative, the live allowance covers it, and (for a positive amount) re-writing the entry with
+its old `live_until_ledger` passes `set_allowance`'s own bound -/
+def CanSpend (c : Cfg) (t : Tok) (o sp : Nat) (amt : Int) : Prop :=
+  0 ≤ amt ∧ amt ≤ OZ.Fungible.allowance t o sp ∧
+  (0 < amt → (OZ.Fungible.allowanceData t o sp).liveUntilLedger ≤ c.maxLiveUntil t.now)
+
+theorem spendAllowance_succeeds_iff (c : Cfg) (s : Tok) (o sp : Nat) (amt : Int) :
+    (∃ s', OZ.Fungible.spendAllowance c s o sp amt = .ok s') ↔ CanSpend c s o sp amt := by
+  constructor
+  · rintro ⟨s', h⟩
+    obtain ⟨h0, hle, hc⟩ := OZ.Fungible.spendAllowance_cases h
+    refine ⟨h0, hle, fun hp => ?_⟩
+    rcases hc with ⟨-, hset⟩ | ⟨hz, -⟩
+    · exact (OZ.Fungible.setAllowance_entry hset).2.1
+    · omega
+  · rintro ⟨h0, hle, hlu⟩
+    unfold OZ.Fungible.allowance at hle
+    unfold OZ.Fungible.spendAllowance
+    rw [if_neg (by omega)]
+    dsimp only
+    rw [if_neg (by omega)]
+    by_cases hp : amt > 0
+    · rw [if_pos hp]
+      have hne : OZ.Fungible.allowance s o sp ≠ 0 := by unfold OZ.Fungible.allowance; omega
+      obtain ⟨e, -, -, hx, hd⟩ := OZ.Fungible.allowance_ne_zero_unexpired hne
+      have hnow : s.now ≤ (OZ.Fungible.allowanceData s o sp).liveUntilLedger := by rw [hd]; exact hx
+      have := hlu hp
+      exact OZ.Fungible.setAllowance_succeeds c s o sp _ _ (by omega) (by omega)
+    · rw [if_neg hp]; exact ⟨s, rfl⟩
+
+/-! ### the token updates succeed exactly when the balances suffice (no overflow is possible
+under the C01 invariant) -/
+
+theorem update_move_succeeds_iff {U : List Nat} (hn : U.Nodup) {s : Tok} (hi : OZ.Fungible.Inv U s)
+    (f t : Nat) (a : Int) :
+    (∃ s', OZ.Fungible.update s (some f) (some t) a = .ok s') ↔ 0 ≤ a ∧ a ≤ s.bal f := by
+  constructor
+  · rintro ⟨s', h⟩
+    obtain ⟨m1, m2, -⟩ := update_move_ok h
+    exact ⟨m1, m2⟩
+  · rintro ⟨h0, hle⟩
+    have hin : in128 (upd s.bal f (s.bal f - a) t + a) := by
+      by_cases htf : t = f
+      · subst htf; rw [OZ.Fungible.upd_same]
+        have := OZ.Fungible.bal_le_supply hn hi t; have := hi.nonneg t; have := hi.supHi
+        unfold in128 I128_MIN; unfold I128_MAX at *; constructor <;> omega
+      · rw [OZ.Fungible.upd_other _ _ _ _ htf]
+        have := OZ.Fungible.bal_add_le_supply hn hi f t (Ne.symm htf)
+        have := hi.nonneg t; have := hi.supHi
+        unfold in128 I128_MIN; unfold I128_MAX at *; constructor <;> omega
+    unfold OZ.Fungible.update
+    rw [if_neg (by omega)]
+    simp only [OZ.Fungible.debit]
+    rw [if_neg (by omega)]
+    simp only [OZ.Fungible.credit]
+    rw [if_pos hin]
+    exact ⟨_, rfl⟩
+
+theorem update_mint_succeeds_iff {U : List Nat} (hn : U.Nodup) {s : Tok} (hi : OZ.Fungible.Inv U s)
+    (t : Nat) (a : Int) :
+    (∃ s', OZ.Fungible.update s none (some t) a = .ok s') ↔ 0 ≤ a ∧ s.supply + a ≤ I128_MAX := by
+  constructor
+  · rintro ⟨s', h⟩
+    obtain ⟨m1, m2, -, -, -, -, m7⟩ := update_mint_ok h
+    exact ⟨m1, by rw [← m2]; exact m7⟩
+  · rintro ⟨h0, hle⟩
+    have hs : in128 (s.supply + a) := by
+      have := hi.supLo
+      unfold in128 I128_MIN; unfold I128_MAX at *; constructor <;> omega
+    have hb : in128 (s.bal t + a) := by
+      have := OZ.Fungible.bal_le_supply hn hi t; have := hi.nonneg t
+      unfold in128 I128_MIN; unfold I128_MAX at *; constructor <;> omega
+    unfold OZ.Fungible.update
+    rw [if_neg (by omega)]
+    simp only [OZ.Fungible.debit]
+    rw [if_pos hs]
+    simp only [OZ.Fungible.credit]
+    rw [if_pos hb]
+    exact ⟨_, rfl⟩
+
+theorem update_burn_succeeds_iff {U : List Nat} (hn : U.Nodup) {s : Tok} (hi : OZ.Fungible.Inv U s)
+    (f : Nat) (a : Int) :
+    (∃ s', OZ.Fungible.update s (some f) none a = .ok s') ↔ 0 ≤ a ∧ a ≤ s.bal f := by
+  constructor
+  · rintro ⟨s', h⟩
+    obtain ⟨m1, m2, -⟩ := update_burn_ok h
+    exact ⟨m1, m2⟩
+  · rintro ⟨h0, hle⟩
+    have hs : in128 (s.supply - a) := by
+      have := OZ.Fungible.bal_le_supply hn hi f; have := hi.supHi
+      unfold in128 I128_MIN; unfold I128_MAX at *; constructor <;> omega
+    unfold OZ.Fungible.update
+    rw [if_neg (by omega)]
+    simp only [OZ.Fungible.debit]
+    rw [if_neg (by omega)]
+    simp only [OZ.Fungible.credit]
+    rw [if_pos hs]
+    exact ⟨_, rfl⟩
+
+theorem ok_bind' {ε α β} (a : α) (f : α → Except ε β) : (Except.ok a >>= f) = f a := rfl
+
+theorem transfer_succeeds_iff {U : List Nat} (hn : U.Nodup) {s : Tok} (hi : OZ.Fungible.Inv U s)
+    (auth : List Nat) (f t : Nat) (a : Int) :
+    (∃ s', OZ.Fungible.transfer s auth f t a = .ok s') ↔ f ∈ auth ∧ 0 ≤ a ∧ a ≤ s.bal f := by
+  constructor
+  · rintro ⟨s', h⟩
+    obtain ⟨t1, t2, t3, -⟩ := transfer_ok h
+    exact ⟨t1, t2, t3⟩
+  · rintro ⟨h1, h2, h3⟩
+    obtain ⟨s1, hs1⟩ := (update_move_succeeds_iff hn hi f t a).2 ⟨h2, h3⟩
+    unfold OZ.Fungible.transfer OZ.Fungible.requireAuth
+    rw [if_pos h1, ok_bind', hs1]
+    exact ⟨_, rfl⟩
+
+theorem transferFrom_succeeds_iff {U : List Nat} (hn : U.Nodup) {c : Cfg} {s : Tok}
+    (hi : OZ.Fungible.Inv U s) (auth : List Nat) (sp f t : Nat) (a : Int) :
+    (∃ s', OZ.Fungible.transferFrom c s auth sp f t a = .ok s') ↔
+      sp ∈ auth ∧ CanSpend c s f sp a ∧ a ≤ s.bal f := by
+  constructor
+  · rintro ⟨s', h⟩
+    obtain ⟨u, hu, h⟩ := OZ.Fungible.bind_eq_ok h
+    obtain ⟨s0, h0, h⟩ := OZ.Fungible.bind_eq_ok h
+    obtain ⟨s1, h1, -⟩ := OZ.Fungible.bind_eq_ok h
+    obtain ⟨-, e2, -⟩ := OZ.Fungible.spendAllowance_ok h0
+    obtain ⟨-, m2, -⟩ := update_move_ok h1
+    exact ⟨OZ.Fungible.requireAuth_ok hu, (spendAllowance_succeeds_iff c s f sp a).1 ⟨s0, h0⟩,
+      by rw [← e2]; exact m2⟩
+  · rintro ⟨h1, h2, h3⟩
+    obtain ⟨s0, hs0⟩ := (spendAllowance_succeeds_iff c s f sp a).2 h2
+    obtain ⟨e1, e2, -⟩ := OZ.Fungible.spendAllowance_ok hs0
+    obtain ⟨s1, hs1⟩ := (update_move_succeeds_iff hn (hi.congr e1 e2) f t a).2 ⟨h2.1, by rw [e2]; exact h3⟩
+    unfold OZ.Fungible.transferFrom OZ.Fungible.requireAuth
+    rw [if_pos h1, ok_bind', hs0, ok_bind', hs1]
+    exact ⟨_, rfl⟩
+
+
+/-! ### allowances across the two internal movers, as the getters read them -/
+
+/-- `withdraw_internal`: operator ≠ owner ⇒ the share allowance `owner → operator` reads
+exactly `shares` less and every other pair reads the same; operator = owner ⇒ every pair
+reads the same. Asset allowances are never touched. -/
+theorem withdrawInternal_allowances {c : Cfg} {s s' : State} {r ow o : Nat} {a v : Int}
+    (h : withdrawInternal c s r ow a v o = .ok s') :
+    (o ≠ ow → OZ.Fungible.allowance s'.sh ow o = OZ.Fungible.allowance s.sh ow o - v) ∧
+    (∀ x y, ¬ (x = ow ∧ y = o ∧ o ≠ ow) →
+      OZ.Fungible.allowance s'.sh x y = OZ.Fungible.allowance s.sh x y) ∧
+    (∀ x y, OZ.Fungible.allowance s'.ast x y = OZ.Fungible.allowance s.ast x y) ∧
+    (v = 0 → s'.sh.allow = s.sh.allow) := by
+  obtain ⟨sh1, h1, h⟩ := bind_eq_ok h
+  obtain ⟨sh2, h2, h⟩ := bind_eq_ok h
+  obtain ⟨ast, h3, h4⟩ := bind_eq_ok h
+  injection h4 with h4; subst h4
+  obtain ⟨-, -, -, b4, b5, -, -⟩ := update_burn_ok (liftS_ok h2)
+  obtain ⟨-, -, -, -, t5, t6, -⟩ := transfer_ok (liftA_ok h3)
+  have hast : ∀ x y, OZ.Fungible.allowance ast x y = OZ.Fungible.allowance s.ast x y :=
+    fun x y => OZ.Fungible.allowance_congr t5 t6 x y
+  have h21 : ∀ x y, OZ.Fungible.allowance sh2 x y = OZ.Fungible.allowance sh1 x y :=
+    fun x y => OZ.Fungible.allowance_congr b4 b5 x y
+  unfold spendShares at h1
+  by_cases hoo : o = ow
+  · rw [if_pos hoo] at h1
+    injection h1 with h1; subst h1
+    exact ⟨fun hne => absurd hoo hne, fun x y _ => h21 x y, hast, fun _ => b4⟩
+  · rw [if_neg hoo] at h1
+    have h1 := liftS_ok h1
+    refine ⟨fun _ => ?_, fun x y hxy => ?_, hast, fun hv => ?_⟩
+    · show OZ.Fungible.allowance sh2 ow o = _
+      rw [h21, spendAllowance_exact h1]
+    · show OZ.Fungible.allowance sh2 x y = _
+      rw [h21, spendAllowance_others h1 x y (fun e => hxy ⟨e.1, e.2, hoo⟩)]
+    · show sh2.allow = _
+      rw [b4, (spendAllowance_ge h1).2.2 hv]
+
+/-- `deposit_internal`: operator ≠ payer ⇒ the ASSET allowance `payer → operator` reads
+exactly `assets` less; nothing else moves; share allowances are never touched -/
+theorem depositInternal_allowances {c : Cfg} {s s' : State} {tauth : List Nat} {r f o : Nat}
+    {a v : Int} (h : depositInternal c s tauth r a v f o = .ok s') :
+    (o ≠ f → OZ.Fungible.allowance s'.ast f o = OZ.Fungible.allowance s.ast f o - a) ∧
+    (∀ x y, ¬ (x = f ∧ y = o ∧ o ≠ f) →
+      OZ.Fungible.allowance s'.ast x y = OZ.Fungible.allowance s.ast x y) ∧
+    (∀ x y, OZ.Fungible.allowance s'.sh x y = OZ.Fungible.allowance s.sh x y) := by
+  obtain ⟨ast, h1, h⟩ := bind_eq_ok h
+  obtain ⟨sh, h2, h3⟩ := bind_eq_ok h
+  injection h3 with h3; subst h3
+  obtain ⟨-, -, m3, m4, -⟩ := update_mint_ok (liftS_ok h2)
+  have hsh : ∀ x y, OZ.Fungible.allowance sh x y = OZ.Fungible.allowance s.sh x y :=
+    fun x y => OZ.Fungible.allowance_congr m3 m4 x y
+  unfold pullAssets at h1
+  by_cases hof : o = f
+  · rw [if_pos hof] at h1
+    obtain ⟨-, -, -, -, t5, t6, -⟩ := transfer_ok (liftA_ok h1)
+    exact ⟨fun hne => absurd hof hne, fun x y _ => OZ.Fungible.allowance_congr t5 t6 x y, hsh⟩
+  · rw [if_neg hof] at h1
+    have h1 := liftA_ok h1
+    obtain ⟨u, hu, h1'⟩ := OZ.Fungible.bind_eq_ok h1
+    obtain ⟨s0, h0, h1'⟩ := OZ.Fungible.bind_eq_ok h1'
+    obtain ⟨s1, hs1, h1'⟩ := OZ.Fungible.bind_eq_ok h1'
+    injection h1' with h1'; subst h1'
+    obtain ⟨-, -, -, u4, u5, -, -⟩ := update_move_ok hs1
+    have h10 : ∀ x y, OZ.Fungible.allowance (OZ.Fungible.emit s1 (.transfer f s.vault a)) x y =
+        OZ.Fungible.allowance s0 x y := fun x y => OZ.Fungible.allowance_congr u4 u5 x y
+    refine ⟨fun _ => ?_, fun x y hxy => ?_, hsh⟩
+    · show OZ.Fungible.allowance (OZ.Fungible.emit s1 _) f o = _
+      rw [h10, spendAllowance_exact h0]
+    · show OZ.Fungible.allowance (OZ.Fungible.emit s1 _) x y = _
+      rw [h10, spendAllowance_others h0 x y (fun e => hxy ⟨e.1, e.2, hof⟩)]
+
+/-! ### the internal movers succeed exactly when ... -/
+
+theorem bind_ok_iff {ε α β} (x : Except ε α) (f : α → Except ε β) :
+    (∃ v, (x >>= f) = .ok v) ↔ ∃ a, x = .ok a ∧ ∃ v, f a = .ok v := by
+  constructor
+  · rintro ⟨v, h⟩
+    obtain ⟨a, h1, h2⟩ := OZ.Fungible.bind_eq_ok h
+    exact ⟨a, h1, v, h2⟩
+  · rintro ⟨a, h1, v, h2⟩
+    exact ⟨v, by rw [h1]; exact h2⟩
+
+theorem liftS_ok_iff {α} (x : Except OZ.Fungible.Err α) (v : α) : liftS x = .ok v ↔ x = .ok v :=
+  ⟨liftS_ok, fun h => by rw [h]; rfl⟩
+
+theorem liftA_ok_iff {α} (x : Except OZ.Fungible.Err α) (v : α) : liftA x = .ok v ↔ x = .ok v :=
+  ⟨liftA_ok, fun h => by rw [h]; rfl⟩
+
+theorem guard_ok_iff (p : Prop) [Decidable p] (e : Err) : guard p e = .ok () ↔ p := by
+  unfold guard
+  constructor
+  · intro h; split at h
+    · assumption
+    · cases h
+  · intro h; rw [if_pos h]
+
+/-- who has to be in the asset token's authorizing set, and what the payer needs -/
+def CanPull (c : Cfg) (s : State) (tauth : List Nat) (f o : Nat) (assets : Int) : Prop :=
+  0 ≤ assets ∧ assets ≤ s.ast.bal f ∧
+  (if o = f then f ∈ tauth else o ∈ tauth ∧ CanSpend c s.ast f o assets)
+
+theorem pullAssets_succeeds_iff {U : List Nat} (hn : U.Nodup) {c : Cfg} {s : State} (hw : WF U s)
+    (tauth : List Nat) (f o : Nat) (a : Int) :
+    (∃ t, pullAssets c s tauth f o a = .ok t) ↔ CanPull c s tauth f o a := by
+  unfold pullAssets CanPull
+  by_cases hof : o = f
+  · rw [if_pos hof, if_pos hof]
+    simp only [liftA_ok_iff]
+    rw [transfer_succeeds_iff hn hw.ast]
+    constructor
+    · rintro ⟨h1, h2, h3⟩; exact ⟨h2, h3, h1⟩
+    · rintro ⟨h2, h3, h1⟩; exact ⟨h1, h2, h3⟩
+  · rw [if_neg hof, if_neg hof]
+    simp only [liftA_ok_iff]
+    rw [transferFrom_succeeds_iff hn hw.ast]
+    constructor
+    · rintro ⟨h1, h2, h3⟩; exact ⟨h2.1, h3, h1, h2⟩
+    · rintro ⟨-, h3, h1, h2⟩; exact ⟨h1, h2, h3⟩
+
+theorem depositInternal_succeeds_iff {U : List Nat} (hn : U.Nodup) {c : Cfg} {s : State}
+    (hw : WF U s) (tauth : List Nat) (r f o : Nat) (a v : Int) :
+    (∃ s', depositInternal c s tauth r a v f o = .ok s') ↔
+      CanPull c s tauth f o a ∧ 0 ≤ v ∧ s.sh.supply + v ≤ I128_MAX := by
+  unfold depositInternal
+  rw [bind_ok_iff]
+  constructor
+  · rintro ⟨t, h1, s', h2⟩
+    obtain ⟨sh, h3, -⟩ := bind_eq_ok h2
+    exact ⟨(pullAssets_succeeds_iff hn hw tauth f o a).1 ⟨t, h1⟩,
+      (update_mint_succeeds_iff hn hw.sh r v).1 ⟨sh, liftS_ok h3⟩⟩
+  · rintro ⟨h1, h2⟩
+    obtain ⟨t, ht⟩ := (pullAssets_succeeds_iff hn hw tauth f o a).2 h1
+    obtain ⟨sh, hsh⟩ := (update_mint_succeeds_iff hn hw.sh r v).2 h2
+    refine ⟨t, ht, { s with ast := t, sh := sh }, ?_⟩
+    rw [hsh]; rfl
+
+theorem withdrawInternal_succeeds_iff {U : List Nat} (hn : U.Nodup) {c : Cfg} {s : State}
+    (hw : WF U s) (r ow o : Nat) (a v : Int) :
+    (∃ s', withdrawInternal c s r ow a v o = .ok s') ↔
+      (o ≠ ow → CanSpend c s.sh ow o v) ∧ 0 ≤ v ∧ v ≤ s.sh.bal ow ∧ 0 ≤ a ∧ a ≤ totalAssets s := by
+  constructor
+  · rintro ⟨s', h⟩
+    obtain ⟨hout, -⟩ := withdrawInternal_ok h
+    obtain ⟨sh1, h1, -⟩ := bind_eq_ok h
+    refine ⟨fun hne => ?_, hout.v0, hout.hasShares, hout.a0, hout.hasAssets⟩
+    unfold spendShares at h1
+    rw [if_neg hne] at h1
+    exact (spendAllowance_succeeds_iff c s.sh ow o v).1 ⟨sh1, liftS_ok h1⟩
+  · rintro ⟨h1, h2, h3, h4, h5⟩
+    -- step 1: the allowance
+    have hs1 : ∃ sh1, spendShares c s ow o v = .ok sh1 ∧ sh1.supply = s.sh.supply ∧ sh1.bal = s.sh.bal := by
+      unfold spendShares
+      by_cases hoo : o = ow
+      · rw [if_pos hoo]; exact ⟨s.sh, rfl, rfl, rfl⟩
+      · rw [if_neg hoo]
+        obtain ⟨sh1, hsh1⟩ := (spendAllowance_succeeds_iff c s.sh ow o v).2 (h1 hoo)
+        obtain ⟨e1, e2, -⟩ := OZ.Fungible.spendAllowance_ok hsh1
+        exact ⟨sh1, by rw [hsh1]; rfl, e1, e2⟩
+    obtain ⟨sh1, hsh1, e1, e2⟩ := hs1
+    obtain ⟨sh2, hsh2⟩ := (update_burn_succeeds_iff hn (hw.sh.congr e1 e2) ow v).2 ⟨h2, by rw [e2]; exact h3⟩
+    obtain ⟨ast, hast⟩ := (transfer_succeeds_iff hn hw.ast [s.vault] s.vault r a).2
+      ⟨List.mem_singleton.2 rfl, h4, h5⟩
+    unfold withdrawInternal
+    rw [hsh1, ok_bind, hsh2]
+    show ∃ s', (liftA (OZ.Fungible.transfer s.ast [s.vault] s.vault r a) >>= _) = _
+    rw [hast]
+    exact ⟨_, rfl⟩
+
+/-- an amount within `max_withdraw(owner)` never fails for lack of the owner's shares or of
+the vault's assets -/
+theorem withdraw_feasible {U : List Nat} (hn : U.Nodup) {s : State} (hw : WF U s) {ow : Nat}
+    {a m v : Int} (hm : maxWithdraw s ow = .ok m) (ha : a ≤ m)
+    (hp : previewWithdraw s a = .ok v) : v ≤ s.sh.bal ow ∧ a ≤ totalAssets s ∧ 0 ≤ v ∧ 0 ≤ a := by
+  obtain ⟨hA, hS, hV, -⟩ := wf_pos hw
+  have hb0 := hw.sh.nonneg ow
+  have hbs : s.sh.bal ow ≤ totalShares s := OZ.Fungible.bal_le_supply hn hw.sh ow
+  have hb : OZ.MulDiv.in128 (s.sh.bal ow) := shares_in128 hn hw hb0 (Int.le_refl _)
+  obtain ⟨-, e1, hmin⟩ := convertToAssets_ok hb hw.off hS hm
+  -- `a` is a valid i128: below `m`, and non-negative because the preview succeeded
+  have ha0 : 0 ≤ a := by
+    unfold previewWithdraw convertToShares at hp
+    by_contra hneg
+    rw [if_pos (by omega)] at hp; cases hp
+  have hain : OZ.MulDiv.in128 a := by
+    unfold OZ.MulDiv.in128 OZ.MulDiv.I128_MIN OZ.MulDiv.I128_MAX at *; omega
+  obtain ⟨-, e2, -⟩ := convertToShares_ok hain hw.off hA hp
+  obtain ⟨f1, -⟩ := exactQ_floor_bounds (s.sh.bal ow) (totalAssets s + 1) (totalShares s + 10 ^ s.offset) (by omega)
+  obtain ⟨-, c2⟩ := exactQ_ceil_bounds a (totalShares s + 10 ^ s.offset) (totalAssets s + 1) (by omega)
+  have hv0 : 0 ≤ v := by
+    rw [e2]; exact exactQ_nonneg .ceil a _ _ ha0 (by omega) (by omega) (by decide)
+  rw [← e1] at f1; rw [← e2] at c2
+  generalize (10 : Int) ^ s.offset = V at *
+  generalize s.sh.bal ow = b at *
+  refine ⟨?_, ?_, hv0, ha0⟩
+  · by_contra hlt
+    have : b + 1 ≤ v := by omega
+    nlinarith
+  · by_contra hlt
+    have : totalAssets s + 1 ≤ m := by omega
+    nlinarith
+
+/-- redeeming shares the owner holds never fails for lack of the vault's assets -/
+theorem redeem_feasible {U : List Nat} (hn : U.Nodup) {s : State} (hw : WF U s) {ow : Nat}
+    {x a : Int} (hx : x ≤ s.sh.bal ow) (hp : previewRedeem s x = .ok a) :
+    a ≤ totalAssets s ∧ 0 ≤ a ∧ 0 ≤ x := by
+  obtain ⟨hA, hS, hV, -⟩ := wf_pos hw
+  have hbs : s.sh.bal ow ≤ totalShares s := OZ.Fungible.bal_le_supply hn hw.sh ow
+  have hx0 : 0 ≤ x := by
+    unfold previewRedeem convertToAssets at hp
+    by_contra hneg
+    rw [if_pos (by omega)] at hp; cases hp
+  have hxin : OZ.MulDiv.in128 x := shares_in128 hn hw hx0 hx
+  obtain ⟨-, e1, -⟩ := convertToAssets_ok hxin hw.off hS hp
+  obtain ⟨f1, -⟩ := exactQ_floor_bounds x (totalAssets s + 1) (totalShares s + 10 ^ s.offset) (by omega)
+  have ha0 : 0 ≤ a := by
+    rw [e1]; exact exactQ_nonneg .floor x _ _ hx0 (by omega) (by omega) (by decide)
+  rw [← e1] at f1
+  generalize (10 : Int) ^ s.offset = V at *
+  refine ⟨?_, ha0, hx0⟩
+  by_contra hlt
+  have : totalAssets s + 1 ≤ a := by omega
+  nlinarith
+
+
+/-! ### a holder's claim under a non-decreasing rate -/
+
+/-- `⌊b·a/t⌋ ≤ ⌊b'·a'/t'⌋` when `b ≤ b'` and `a/t ≤ a'/t'` (cross-multiplied) -/
+theorem floor_claim_mono (b b' a a' t t' : Int) (hb : 0 ≤ b) (hbb : b ≤ b') (ha' : 0 < a')
+    (ht : 0 < t) (ht' : 0 < t') (hr : a * t' ≤ a' * t) :
+    OZ.MulDiv.exactQ .floor b a t ≤ OZ.MulDiv.exactQ .floor b' a' t' := by
+  obtain ⟨f1, -⟩ := exactQ_floor_bounds b a t ht
+  obtain ⟨-, f2⟩ := exactQ_floor_bounds b' a' t' ht'
+  generalize OZ.MulDiv.exactQ .floor b a t = q at *
+  generalize OZ.MulDiv.exactQ .floor b' a' t' = q' at *
+  by_contra hlt
+  have hq : q' + 1 ≤ q := by omega
+  -- t·(q'+1) ≤ t·q ≤ b·a
+  have k1 : t * (q' + 1) ≤ b * a := by nlinarith
+  -- times t' : t'·t·(q'+1) ≤ b·a·t' ≤ b·a'·t ≤ b'·a'·t
+  have k2 : t' * (t * (q' + 1)) ≤ t' * (b * a) := Int.mul_le_mul_of_nonneg_left k1 (by omega)
+  have k3 : b * (a * t') ≤ b * (a' * t) := Int.mul_le_mul_of_nonneg_left hr hb
+  have k4 : b * (a' * t) ≤ b' * (a' * t) :=
+    Int.mul_le_mul_of_nonneg_right hbb (Int.mul_nonneg (by omega) (by omega))
+  have k5 : (b' * a') * t < (t' * q' + t') * t := Int.mul_lt_mul_of_pos_right f2 ht
+  nlinarith
+
+/-! ### a passive user: signs nothing, approved nobody -/
+
+/-- one successful invocation that `u` does not sign, while `u` has no share-allowance
+entries: `u`'s share balance does not go down and `u` still has no entries -/
+theorem apply_passive {c : Cfg} {s s' : State} {ret : Int} (auth : List Nat)
+    (op : Op) (u : Nat) (hu : u ∉ auth) (hnone : ∀ sp, s.sh.allow u sp = none)
+    (h : apply c s auth op = .ok (s', ret)) :
+    s.sh.bal u ≤ s'.sh.bal u ∧ ∀ sp, s'.sh.allow u sp = none := by
+  cases op with
+  | deposit sub a r f o =>
+    obtain ⟨-, -, -, hin, -⟩ := deposit_ok h
+    refine ⟨?_, fun sp => by rw [hin.shAllow]; exact hnone sp⟩
+    rw [hin.shBal]; have := hin.v0
+    by_cases hx : u = r
+    · subst hx; rw [OZ.Fungible.upd_same]; omega
+    · rw [OZ.Fungible.upd_other _ _ _ _ hx]
+  | mint sub x r f o =>
+    obtain ⟨-, -, -, hin, -⟩ := mint_ok h
+    refine ⟨?_, fun sp => by rw [hin.shAllow]; exact hnone sp⟩
+    rw [hin.shBal]; have := hin.v0
+    by_cases hx : u = r
+    · subst hx; rw [OZ.Fungible.upd_same]; omega
+    · rw [OZ.Fungible.upd_other _ _ _ _ hx]
+  | withdraw a r ow o =>
+    obtain ⟨ho, -, -, hout, -⟩ := withdraw_ok h
+    obtain ⟨_, h1, h⟩ := bind_eq_ok h
+    obtain ⟨m, hm, h⟩ := bind_eq_ok h
+    obtain ⟨_, h2, h⟩ := bind_eq_ok h
+    obtain ⟨v', h3, h⟩ := bind_eq_ok h
+    obtain ⟨s1, h4, h5⟩ := bind_eq_ok h
+    injection h5 with h5; injection h5 with h5 h6; subst h5; subst h6
+    obtain ⟨-, -, -, hz⟩ := withdrawInternal_allowances h4
+    by_cases hx : u = ow
+    · have hne : o ≠ ow := fun e => hu (hx ▸ e ▸ ho)
+      have hv : v' = 0 := by
+        have h1 := (hout.spent hne).1
+        rw [← hx, allowance_none (hnone o)] at h1
+        have := hout.v0; omega
+      refine ⟨?_, fun sp => ?_⟩
+      · rw [hout.shBal, hx, OZ.Fungible.upd_same, hv]; omega
+      · show s1.sh.allow u sp = none; rw [hz hv]; exact hnone sp
+    · refine ⟨?_, fun sp => ?_⟩
+      · rw [hout.shBal, OZ.Fungible.upd_other _ _ _ _ hx]
+      · by_cases hoo : o = ow
+        · rw [hout.own hoo]; exact hnone sp
+        · rw [(hout.spent hoo).2 u sp (fun e => hx e.1)]; exact hnone sp
+  | redeem x r ow o =>
+    obtain ⟨ho, -, -, hout, -⟩ := redeem_ok h
+    obtain ⟨_, h1, h⟩ := bind_eq_ok h
+    obtain ⟨_, h2, h⟩ := bind_eq_ok h
+    obtain ⟨a', h3, h⟩ := bind_eq_ok h
+    obtain ⟨s1, h4, h5⟩ := bind_eq_ok h
+    injection h5 with h5; injection h5 with h5 h6; subst h5; subst h6
+    obtain ⟨-, -, -, hz⟩ := withdrawInternal_allowances h4
+    by_cases hx : u = ow
+    · have hne : o ≠ ow := fun e => hu (hx ▸ e ▸ ho)
+      have hv : x = 0 := by
+        have h1 := (hout.spent hne).1
+        rw [← hx, allowance_none (hnone o)] at h1
+        have := hout.v0; omega
+      refine ⟨?_, fun sp => ?_⟩
+      · rw [hout.shBal, hx, OZ.Fungible.upd_same, hv]; omega
+      · show s1.sh.allow u sp = none; rw [hz hv]; exact hnone sp
+    · refine ⟨?_, fun sp => ?_⟩
+      · rw [hout.shBal, OZ.Fungible.upd_other _ _ _ _ hx]
+      · by_cases hoo : o = ow
+        · rw [hout.own hoo]; exact hnone sp
+        · rw [(hout.spent hoo).2 u sp (fun e => hx e.1)]; exact hnone sp
+  | share op =>
+    simp only [apply, withRet] at h
+    split at h
+    · rename_i s1 h1
+      injection h with h; injection h with h _; subst h
+      obtain ⟨-, sh, hsh, rfl⟩ := shareOp_ok h1
+      obtain ⟨e1, -, -, -⟩ := emitOpt_fields { s with sh := sh } (shareEvent op)
+      rw [e1]
+      exact ⟨apply_bal_frame hsh u hu hnone, apply_allow_frame hsh u hu hnone⟩
+    · cases h
+  | asset op =>
+    simp only [apply, withRet] at h
+    split at h
+    · rename_i s1 h1
+      injection h with h; injection h with h _; subst h
+      obtain ⟨a, -, rfl⟩ := assetOp_ok h1
+      exact ⟨Int.le_refl _, hnone⟩
+    · cases h
+  | advance n =>
+    simp only [apply] at h
+    injection h with h; injection h with h _; subst h
+    exact ⟨Int.le_refl _, hnone⟩
+
+/-- test helpers: a result is `ok` and satisfies `p` / is the error `e` -/
+def okAnd (r : Except Err (State × Int)) (p : State → Int → Bool) : Bool :=
+  match r with
+  | .ok (s, a) => p s a
+  | .error _ => false
+
+def errIs (r : Except Err (State × Int)) (e : Err) : Bool :=
+  match r with
+  | .ok _ => false
+  | .error e' => e' == e
 
 
 end OZ.Vault
